@@ -2,6 +2,8 @@
 From Coq Require Import NArith ZArith List Lia.
 From Mtbl Require Import gen.Consts model.Bytes model.Codec model.Order model.Block model.Crc model.Writer
   proofs.BytesLemmas proofs.OrderProofs proofs.WriterProofs proofs.MetaProofs.
+(* source ties: the statements of the C functions the model follows (gen/Ties.v is regenerated from /repo on every run) *)
+From Mtbl Require props.Ties_C10.
 Local Open Scope N_scope.
 
 Section C10.
